@@ -167,6 +167,13 @@ func (f *file) asyncReadNow(b []byte, readSoFar int, readAll bool, cb AsyncCallb
 	n, err := f.Read(b[readSoFar:])
 	readSoFar += n
 
+	// A short read with readAll == true is not the end: keep reading until the buffer is full, the read would block
+	// (then we get scheduled) or fails.
+	for err == nil && readAll && readSoFar != len(b) {
+		n, err = f.Read(b[readSoFar:])
+		readSoFar += n
+	}
+
 	// f is a nonblocking fd so if err == ErrWouldBlock
 	// then we need to schedule an async read.
 
@@ -229,6 +236,13 @@ func (f *file) asyncWrite(b []byte, writeAll bool, cb AsyncCallback) {
 func (f *file) asyncWriteNow(b []byte, wroteSoFar int, writeAll bool, cb AsyncCallback) {
 	n, err := f.Write(b[wroteSoFar:])
 	wroteSoFar += n
+
+	// A short write with writeAll == true is not the end: keep writing until everything is out, the write would block
+	// (then we get scheduled) or fails.
+	for err == nil && writeAll && wroteSoFar != len(b) {
+		n, err = f.Write(b[wroteSoFar:])
+		wroteSoFar += n
+	}
 
 	if err == nil && !(writeAll && wroteSoFar != len(b)) {
 		// If writeAll == true then we wrote fully without errors.
